@@ -88,6 +88,11 @@ impl Store {
         self.inner.lock().unwrap().data.len()
     }
 
+    pub fn prefix(&self, n: usize) -> Vec<u8> {
+        let g = self.inner.lock().unwrap();
+        g.data[..n.min(g.data.len())].to_vec()
+    }
+
     pub fn start_recording(&self) {
         let mut g = self.inner.lock().unwrap();
         g.recording = true;
